@@ -89,7 +89,7 @@ def run_pair(job):
         dry_log = fv.log() if fv else []
         r2 = drive.cli(["update"] + nofetch + lay.flags, cwd=proj.root, env=env)
         after = proj.snapshot()
-    paths = set(lay.files) | {"bumpver.toml"}
+    paths = set(lay.files) | {lay.cfg_format}
     hunks = parse_diff(r1.stdout, paths) if r1.exit == 0 else {}
     evs = []
     facts = dict(seed=seed, vp=lay.vp, dry_exit=r1.exit, real_exit=r2.exit, dry_changed=[k for k in before if before[k] != mid.get(k)] + sorted(set(mid) - set(before)),
